@@ -88,3 +88,32 @@ def reclamation(S):
     from checks import C07
     C07.rule_wmf(S)
     C07.rule_ret(S)
+
+
+def structure(S):
+    """Structural stores under the guarding lock, link / parent pairing, split sibling locked + dirty + linked before it
+    is reachable (C08 R-MUL, R-LINK; C06 R-SPL): what a traversal along the leaf chain relies on."""
+    if not _once(S, 'structure'):
+        return
+    from checks import C08, C06
+    from checks.lockfam import lock_analysis
+    la = lock_analysis(S.facts())
+    C08.rule_mul(S, la)
+    C08.rule_link(S, la)
+    C06.rule_spl(S)
+
+
+def writers_revalidate(S):
+    """Writers act on the entry (or absence) they re-validated under the lock (C01 R-WUL)."""
+    if not _once(S, 'writers_revalidate'):
+        return
+    from checks import C01
+    C01.rule_wul(S)
+
+
+def names(S, only):
+    """Name-based entry points resolve the storage first (C13 R-STG)."""
+    if not _once(S, 'names'):
+        return
+    from checks import C13
+    C13.rule_stg(S, only=only)
